@@ -153,11 +153,14 @@ Step ==
                 b1 == r.out = "ok" /\ ~(ts[t] = "done" /\ okrun[t] /\ r.v = 1000 + t)
                 b2 == r.out = "err" /\ r.v # 0 /\ ~(ts[t] = "done" /\ ~okrun[t] /\ r.v = t)
                 \* late: the result had been stored long before the wait returned, and the wait was long
-                b3 == r.out \in {"ok", "err"} /\ stored[t] >= 0 /\ r.limit >= 200
+                \* (not when the driver itself held the worker between its store and its notify: forcing "deadline in the window")
+                b3 == r.out \in {"ok", "err"} /\ stored[t] >= 0 /\ r.limit >= 200 /\ ~r.held
                       /\ r.ms * 2 > r.limit /\ r.t - stored[t] > (r.limit * 1000) \div 2
                 \* a waiter for a task that can no longer run must get an error, not wait out its time
                 b4 == r.out = "timeout" /\ (ts[t] = "skipped" \/ (stopOk /\ ts[t] = "queued"))
+                \* timed out although the result had been stored at least 20 ms before the deadline (CoPool!W3deadline)
                 b5 == r.out = "timeout" /\ stored[t] >= 0 /\ r.limit >= 200
+                      /\ stored[t] + 20000 < (r.t - r.ms * 1000) + r.limit * 1000
             IN /\ (b1 => Viol("wrong_result", <<t, r.out, r.v>>))
                /\ (b2 => Viol("wrong_result", <<t, r.out, r.v>>))
                /\ (b3 => Viol("late_join", <<t, r.ms, r.limit>>))
